@@ -336,3 +336,7 @@ mod test {
         assert_eq!(do_evaluate(&[], src.as_bytes()), correct)
     }
 }
+
+#[cfg(kani)]
+#[path = "/verif/kani/list.rs"]
+mod kani_verif;
